@@ -1,5 +1,6 @@
 SPECIFICATION Spec
 CONSTANTS
+  Bug = "none"
   Params <- ThoroughGrid
 INVARIANT Closed
 INVARIANT IndexConsistent
